@@ -26,6 +26,9 @@ pub const FNS: &[&str] = &[
     "Cls#m",
     "top-level",
     "a&b<c>\"d'",
+    "2,init",
+    "7",
+    "0,0,x",
 ];
 
 pub fn gen_result(rng: &mut Rng, big: bool) -> CovResult {
@@ -49,11 +52,20 @@ pub fn gen_result(rng: &mut Rng, big: bool) -> CovResult {
         c.branches
             .insert(l, (0..len).map(|_| rng.chance(1, 2)).collect());
     }
-    for _ in 0..rng.below(4) {
+    let mut last_start = 0u32;
+    for _ in 0..rng.below(5) {
+        // a third of the functions share their start line with the previous one (template
+        // instantiations, constructors, closures on one line)
+        let start = if last_start != 0 && rng.chance(1, 3) {
+            last_start
+        } else {
+            rng.range(1, 40) as u32
+        };
+        last_start = start;
         c.functions.insert(
             rng.pick(FNS).to_string(),
             Function {
-                start: rng.range(1, 40) as u32,
+                start,
                 executed: rng.chance(1, 2),
             },
         );
